@@ -58,8 +58,10 @@ Lemma baud_codes_distinct : distinct_z (map snd spec_baud) = true /\ distinct_z 
 Proof. repeat split. Qed.
 
 (* ---- acknowledge identifiers ---- *)
+Lemma ack_sweep : forallb (fun m => f_MessageIdentifier_Ack m =? m + 1) (zrange 255) = true.
+Proof. vm_compute. reflexivity. Qed.
 Theorem ack_next m : 0 <= m < 255 -> f_MessageIdentifier_Ack m = m + 1.
-Proof. intros H. unfold f_MessageIdentifier_Ack, wrap_u. apply Z.mod_small. lia. Qed.
+Proof. intros H. pose proof (sweep _ 255 ack_sweep m H) as S. apply Z.eqb_eq in S. exact S. Qed.
 
 Lemma isack_sweep : forallb (fun m => Bool.eqb (f_MessageIdentifier_IsAck m) (Z.odd m)) (zrange 256) = true.
 Proof. vm_compute. reflexivity. Qed.
